@@ -955,7 +955,7 @@ class Deferred(Awaitable[_SelfResultT]):
         """
         if not self.called:
             canceller = self._canceller
-            if canceller:
+            if canceller is not None:
                 canceller(self)
             else:
                 # Arrange to eat the callback that will eventually be fired
